@@ -88,6 +88,8 @@ def item_name(item):
     k = item[0]
     if k == "errno":
         return errname(item[1])
+    if k == "errno1":
+        return errname(item[1]) + "(bare)"
     if k == "ssl":
         return "SSL_" + item[1].upper()
     if k == "partial":
@@ -103,9 +105,16 @@ def item_name(item):
     return k
 
 
+def ERR1(code):
+    """a socket.error built from the number alone (as wrapping or emulating handlers do): args[0] is the number, .errno is None"""
+    return ("errno1", int(code))
+
+
 def make_exc(item):
     if item[0] == "errno":
         return OSError(item[1], os.strerror(item[1]))
+    if item[0] == "errno1":
+        return OSError(item[1])
     if item[0] == "ssl":
         cls, code, text = _SSL_KINDS[item[1]]
         return cls(code, text)
@@ -113,7 +122,7 @@ def make_exc(item):
 
 
 def is_exc(item):
-    return item[0] in ("errno", "ssl")
+    return item[0] in ("errno", "errno1", "ssl")
 
 
 class Scripted(object):
